@@ -36,7 +36,7 @@ NOTE = (
     "map's business: its invariants are checked on the zoo only (bounded)."
 )
 F = "ampform.helicity.HelicityAmplitudeBuilder.__generate_amplitude_prefactor"
-ZOO = ["jpsi_sigmabar_sigma", "jpsi_k0_sigma_pbar_N", "jpsi_gamma_p_pbar", "lambdac_p_k_pi", "jpsi_gamma_pi0_pi0", "jpsi_pi0_pip_pim", "d1_k_k_k0"]
+ZOO = ["jpsi_sigmabar_sigma", "jpsi_k0_sigma_pbar_N", "jpsi_gamma_p_pbar", "chic1_phi_phi", "lambdac_p_k_pi", "jpsi_gamma_pi0_pi0", "jpsi_pi0_pip_pim", "d1_k_k_k0"]
 
 
 def _real_method():
@@ -208,7 +208,7 @@ def build(chk: Check) -> None:
     models.quiet()
     meth_real = _real_method()
     n_tr = 0
-    for name in ZOO if chk.tier == "thorough" else ZOO[:5]:
+    for name in ZOO if chk.tier == "thorough" else ZOO[:6]:
         for formalism in ("helicity", "canonical-helicity"):
             r = zoo.reaction(name, formalism)
             for parent_hel, child_hel in ((False, True), (True, True)) + (((True, False),) if chk.tier == "thorough" else ()):
@@ -235,7 +235,7 @@ def build(chk: Check) -> None:
     chk.extra["zoo_transitions_evaluated"] = n_tr
     # "equivalently": helicity couplings from the Clebsch-Gordan expansion reproduce the canonical model (reactions generated
     # under strong/EM interactions in both formalisms)
-    for name in ("jpsi_sigmabar_sigma", "jpsi_k0_sigma_pbar_N", "jpsi_gamma_p_pbar", "jpsi_gamma_pi0_pi0", "jpsi_pi0_pip_pim"):
+    for name in ("jpsi_sigmabar_sigma", "jpsi_k0_sigma_pbar_N", "jpsi_gamma_p_pbar", "jpsi_gamma_pi0_pi0", "jpsi_pi0_pip_pim", "chic1_phi_phi"):
         def rep(_m, name=name):
             bad, _ = canonical_consistency(name)
             return {"reproduced": bool(bad), "input": {"reaction": name, "canonical_coefficients": "random.Random(1)"}, "observed": bad[:3],
@@ -310,7 +310,7 @@ def model_level_pairs(name: str, formalism: str, history) -> list[dict]:
 
 def model_level(chk: Check) -> None:
     models.quiet()
-    names = ZOO if chk.tier == "thorough" else ["jpsi_sigmabar_sigma", "jpsi_gamma_p_pbar", "jpsi_pi0_pip_pim"]
+    names = ZOO if chk.tier == "thorough" else ["jpsi_sigmabar_sigma", "jpsi_gamma_p_pbar", "jpsi_pi0_pip_pim", "chic1_phi_phi"]
     for name in names:
         # helicity formalism only: in the canonical formalism chains share an LS coefficient for another reason (one coefficient per
         # LS combination, the helicity dependence sits in the Clebsch-Gordan factors) -- the statement's first sentence is about
